@@ -5255,7 +5255,8 @@ func (p *Parser) parseDMLInternal(hint *ast.Hint) (dml ast.DML) {
 }
 
 func (p *Parser) tryParseWithAction() *ast.WithAction {
-	if p.Token.Kind != "WITH" {
+	// "THEN RETURN WITH(a AS 1, a)" returns a WITH expression.
+	if p.Token.Kind != "WITH" || p.lookaheadToken().Kind == "(" {
 		return nil
 	}
 
